@@ -45,6 +45,7 @@ type actor struct {
 	calls []*CallRec
 
 	sctx    lungo.ISessionContext // set while inside a session transaction
+	priv    lungo.ISession        // session the actor keeps across operations (Op.Sess == privSess)
 	pendingCommits []int
 	streams []*streamState
 	stale   []*lungo.Transaction
@@ -232,6 +233,9 @@ func (a *actor) exec(op *Op) *CallRec {
 		return a.call(op, func(c *CallRec) {
 			e.closing = true
 			e.engine.Close()
+			if !e.closed {
+				e.closed, e.closedAt = true, e.sim.Elapsed()
+			}
 			// after Close returned no background goroutine of the engine may be left
 			// (checked after the next quiescence point, so that an exiting goroutine is gone)
 			simrt.Yield("op:closed")
@@ -297,6 +301,18 @@ func (a *actor) exec(op *Op) *CallRec {
 			r2, err := drive(ctx, e.client, &Op{K: "updateOne", DB: op.DB, C: op.C, F: jd(key), U: jd(bson.D{{Key: "$set", Value: bson.D{{Key: "n", Value: n + 1}, {Key: "by", Value: op.Tag}}}}), Upsert: true})
 			c.Err = err
 			c.Res.Matched, c.Res.Modified, c.Res.Upserted, c.Res.IDs = r2.Matched, r2.Modified, r2.Upserted, r2.IDs
+		})
+	case "s.expire":
+		// an expiry pass on the shared session's transaction (Transaction.Expire is one more writer on it)
+		return a.call(op, func(c *CallRec) {
+			if len(e.sharedSess) == 0 {
+				return
+			}
+			if s, ok := e.sharedSess[0].(*lungo.Session); ok {
+				if t := s.Transaction(); t != nil {
+					c.Err = t.Expire()
+				}
+			}
 		})
 	case "s.op":
 		// a driver call carrying the shared session (joins its transaction if one is open)
@@ -409,16 +425,42 @@ func (a *actor) engineWrite(op *Op) *CallRec {
 	})
 }
 
+// privSess marks operations that run on the session the actor keeps across operations.
+const privSess = 7
+
+// session returns the session for a transaction operation and what to do with it afterwards.
+func (a *actor) session(op *Op) (lungo.ISession, func(), error) {
+	if op.Sess == privSess {
+		if a.priv == nil {
+			s, err := a.e.client.StartSession()
+			if err != nil {
+				return nil, nil, err
+			}
+			a.priv = s
+		}
+		sess := a.priv
+		if op.End == "end" {
+			a.priv = nil // ended by the operation itself
+		}
+		return sess, func() {}, nil
+	}
+	sess, err := a.e.client.StartSession()
+	if err != nil {
+		return nil, nil, err
+	}
+	return sess, func() { sess.EndSession(context.Background()) }, nil
+}
+
 // sessionTxn: StartSession, StartTransaction, body, Commit | Abort | End.
 func (a *actor) sessionTxn(op *Op) *CallRec {
 	e := a.e
 	return a.call(op, func(c *CallRec) {
-		sess, err := e.client.StartSession()
+		sess, finish, err := a.session(op)
 		if err != nil {
 			c.Err = err
 			return
 		}
-		defer sess.EndSession(context.Background())
+		defer finish()
 		ctx, done := e.opCtx(a.t, op.Ctx, op.Ms)
 		defer done()
 		err = lungo.WithSession(ctx, sess, func(sc lungo.ISessionContext) error {
@@ -458,12 +500,12 @@ var errCallback = errors.New("callback failed")
 func (a *actor) withTxn(op *Op) *CallRec {
 	e := a.e
 	return a.call(op, func(c *CallRec) {
-		sess, err := e.client.StartSession()
+		sess, finish, err := a.session(op)
 		if err != nil {
 			c.Err = err
 			return
 		}
-		defer sess.EndSession(context.Background())
+		defer finish()
 		ctx, done := e.opCtx(a.t, op.Ctx, op.Ms)
 		defer done()
 		defer func() {
